@@ -152,6 +152,23 @@ type hsub struct {
 	marker     string // the response key that says a message is for this subscription
 	lastRound  int    // (shared connections) the publish that last brought this subscription a message
 	idVar      int    // how the request that registered it writes the id argument (Op.IDVar)
+	selVar     int    // the selection has a key whose presence depends on a variable of the request (Op.SelVar)
+}
+
+// selVarKeeps: does the key that depends on the variable appear in the messages?
+func selVarKeeps(mode int) bool { return mode == 1 || mode == 4 }
+
+// selVarValues are the variables the reference applies the selection with.
+func selVarValues(mode int) map[string]hx.Val {
+	switch mode {
+	case 1:
+		return map[string]hx.Val{"zh": hx.Bool(false)}
+	case 2, 3:
+		return map[string]hx.Val{"zh": hx.Bool(true)}
+	case 4:
+		return map[string]hx.Val{"zh": hx.Bool(true)}
+	}
+	return nil
 }
 
 // conn is one client connection that holds several subscriptions: ONE Subscriber object behind all
@@ -247,7 +264,7 @@ type Op struct {
 	Event    int        `json:"event,omitempty"` // node of the published event
 	// Events (non-nil): the published event is a list of these nodes (-1: a null member), meant for
 	// the subscribers of the list typed field batch
-	Events []int `json:"events,omitempty"`
+	Events []int `json:"events"`
 	// Nil (publish): the published event is null - 1: an untyped nil, 2: a nil pointer of the type
 	// the events have. Each matching subscriber gets its message, with null for the event.
 	Nil int `json:"nil_event,omitempty"`
@@ -258,6 +275,10 @@ type Op struct {
 	// IDVar (subscribe): the id argument is written as a variable - 1: with the pattern as its
 	// default and no value, 2: given a value (the default is something else)
 	IDVar int `json:"id_var,omitempty"`
+	// SelVar (subscribe): the selection applied to the events has a key zsv that depends on a variable
+	// of the request - 1: @skip(if: $zh), $zh given as false; 2: the same, given as true; 3: @skip with
+	// $zh: Boolean = true and no value; 4: @include(if: $zh), given as true
+	SelVar int `json:"sel_var,omitempty"`
 	// ReuseOf > 0: this subscription request is not parsed afresh, the parsed request of the
 	// ReuseOf-th subscribe step (1-based) is resolved again (same selection, same id)
 	ReuseOf int `json:"reuse_of,omitempty"`
@@ -349,6 +370,9 @@ func genCaseC19(rt *rapid.T) *c19Case {
 			}
 			if rapid.IntRange(0, 3).Draw(rt, lab+"idByVariable") == 0 {
 				op.IDVar = rapid.IntRange(1, 2).Draw(rt, lab+"idVar")
+			}
+			if rapid.IntRange(0, 3).Draw(rt, lab+"selectionByVariable") == 0 {
+				op.SelVar = rapid.IntRange(1, 4).Draw(rt, lab+"selVar")
 			}
 			op.FailAt = rapid.SliceOfNDistinct(rapid.IntRange(1, 4), 0, 2, rapid.ID[int]).Draw(rt, lab+"failPlan")
 			op.Field = rapid.SampledFrom([]string{"watch", "listen"}).Draw(rt, lab+"field")
@@ -600,9 +624,20 @@ func runHistory(cc *c19Case) (ds []hx.Discrepancy, traits map[string]bool, hist 
 				h.marker = fmt.Sprintf("mk%d", h.num)
 				h.sels = append(append([]*hx.Sel{}, op.Sels...), &hx.Sel{Kind: "field", Alias: h.marker, Name: "__typename"})
 			}
+			if op.SelVar > 0 && op.ReuseOf == 0 {
+				h.selVar = op.SelVar
+				dir := "skip"
+				if op.SelVar == 4 {
+					dir = "include"
+				}
+				h.sels = append(append([]*hx.Sel{}, h.sels...), &hx.Sel{Kind: "field", Alias: "zsv", Name: "__typename",
+					Dirs: []hx.DirUse{{Name: dir, Args: []hx.KV{{Key: "if", V: hx.VarV("zh")}}}}})
+				traits["selection-depends-on-a-variable-of-the-request"] = true
+			}
 			if op.ReuseOf > 0 && op.ReuseOf <= len(all) {
 				h.sels, h.marker = all[op.ReuseOf-1].sels, all[op.ReuseOf-1].marker // (the parsed request that is resolved again carries that step's marker)
 				h.idVar = all[op.ReuseOf-1].idVar
+				h.selVar = all[op.ReuseOf-1].selVar
 			}
 			if op.ShareWith > 0 && op.ShareWith <= len(all) && op.ReuseOf == 0 {
 				unique := h.marker != ""
@@ -657,6 +692,19 @@ func runHistory(cc *c19Case) (ds []hx.Discrepancy, traits map[string]bool, hist 
 					subVars = map[string]interface{}{}
 				}
 				subVars["sid"] = h.pattern
+			}
+			if h.selVar > 0 {
+				yesV := hx.Bool(true)
+				vd := &hx.VarDef{Name: "zh", Type: hx.Named("Boolean").NN()}
+				if h.selVar == 3 {
+					vd = &hx.VarDef{Name: "zh", Type: hx.Named("Boolean"), Default: &yesV}
+				} else {
+					if subVars == nil {
+						subVars = map[string]interface{}{}
+					}
+					subVars["zh"] = selVarValues(h.selVar)["zh"].Go()
+				}
+				doc.Ops[0].Vars = append(doc.Ops[0].Vars, vd)
 			}
 			if op.IDVar > 0 && op.ReuseOf == 0 {
 				traits["subscription-argument-by-variable"] = true
@@ -790,7 +838,7 @@ func runHistory(cc *c19Case) (ds []hx.Discrepancy, traits map[string]bool, hist 
 					for j, nid := range op.Events {
 						if nid >= 0 {
 							x := &hx.Exec{S: c.Schema, G: c.Graph, D: &hx.Doc{Frags: h.frags}, Faults: cc.Faults}
-							exp := x.RunSelection(c.Graph.Nodes[nid], h.sels, nil)
+							exp := x.RunSelection(c.Graph.Nodes[nid], h.sels, selVarValues(h.selVar))
 							l[j] = exp.Data
 							resolveErrors += len(exp.Errors)
 						}
@@ -800,7 +848,7 @@ func runHistory(cc *c19Case) (ds []hx.Discrepancy, traits map[string]bool, hist 
 					want = nil
 				} else {
 					x := &hx.Exec{S: c.Schema, G: c.Graph, D: &hx.Doc{Frags: h.frags}, Faults: cc.Faults}
-					exp := x.RunSelection(c.Graph.Nodes[evID], h.sels, nil)
+					exp := x.RunSelection(c.Graph.Nodes[evID], h.sels, selVarValues(h.selVar))
 					want = exp.Data
 					resolveErrors += len(exp.Errors)
 				}
